@@ -109,9 +109,9 @@ theorem policy_chains_idempotent_partial (k k' : Kern) (ps : List NetPol) (hn : 
     before the batch and every chain is declared in the batch before it is used, so the only ways syncRules can
     fail are the busy `-X` of a still-referenced stale chain (D17) and the type clash of `ipset create -exist`. -/
 theorem no_dangling_policy_batch_partial (k : Kern) (c : Cluster) (ps : List NetPol)
-    (hkeys : (Tbl.keys k.tbl).Nodup) (hlim : overLimit ps = false) :
+    (hkeys : (Tbl.keys k.tbl).Nodup) :
     ∀ f ∈ (syncRules k c ps).2, f = Fail.restoreBusy ∨ f = Fail.createMismatch :=
-  syncRules_fails_only_busy k c ps hkeys hlim
+  syncRules_fails_only_busy k c ps hkeys (overLimit_false ps)
 
 /-! ## the whole owned state (A): ipsets, the loop over the pods, idempotence, pod batches -/
 
@@ -170,12 +170,12 @@ theorem pods_loop_exact (k : Kern) (c : Cluster) (ps : List NetPol) (node : Stri
 theorem full_sync_exact_under_hypotheses (k : Kern) (c : Cluster) (ps : List NetPol) (node : String)
     (hps : (ps.map (·.hash)).Nodup) (hL : ((localPods c node).map (·.hash)).Nodup)
     (pr : PriorPods (localPods c node) k.tbl) (hcons : ∀ s ∈ compileSets c ps, KeysConsistent s.entries)
-    (hold : ∀ s0 ∈ k.sets, KeysNodup s0.entries) (hlim : overLimit ps = false) (hok : (syncRules k c ps).2 = []) :
+    (hold : ∀ s0 ∈ k.sets, KeysNodup s0.entries) (hok : (syncRules k c ps).2 = []) :
     (fullSync k c ps node).2 = [] ∧ OwnedExact c ps node (fullSync k c ps node).1.tbl ∧
     (∀ s ∈ compileSets c ps, SetIs (fullSync k c ps node).1.sets s.name s.type s.entries) ∧
     PriorPods (localPods c node) (fullSync k c ps node).1.tbl := by
   rw [syncRules_eq] at hok; rw [fullSync_eq]
-  obtain ⟨a, b, d, e⟩ := fullSync_exact k c ps node ⟨hps, hL, pr, compileSets_names_nodup c ps hps, hcons, hold, hlim⟩ hok
+  obtain ⟨a, b, d, e⟩ := fullSync_exact k c ps node ⟨hps, hL, pr, compileSets_names_nodup c ps hps, hcons, hold, overLimit_false ps⟩ hok
   exact ⟨a, b, d, e.prior⟩
 
 /-- "synchronising again changes nothing" — for the WHOLE owned state, under the same hypotheses: the second full sync
@@ -185,7 +185,7 @@ theorem full_sync_exact_under_hypotheses (k : Kern) (c : Cluster) (ps : List Net
 theorem full_sync_idempotent_under_hypotheses (k : Kern) (c : Cluster) (ps : List NetPol) (node : String)
     (hps : (ps.map (·.hash)).Nodup) (hL : ((localPods c node).map (·.hash)).Nodup)
     (pr : PriorPods (localPods c node) k.tbl) (hcons : ∀ s ∈ compileSets c ps, KeysConsistent s.entries)
-    (hold : ∀ s0 ∈ k.sets, KeysNodup s0.entries) (hlim : overLimit ps = false) (hok : (syncRules k c ps).2 = []) :
+    (hold : ∀ s0 ∈ k.sets, KeysNodup s0.entries) (hok : (syncRules k c ps).2 = []) :
     let S1 := (fullSync k c ps node).1
     let R2 := fullSync S1 c ps node
     R2.2 = [] ∧
@@ -196,7 +196,7 @@ theorem full_sync_idempotent_under_hypotheses (k : Kern) (c : Cluster) (ps : Lis
     (∀ s ∈ compileSets c ps, ∃ e1 e2, setEntries S1.sets s.name = some e1 ∧ setEntries R2.1.sets s.name = some e2 ∧
       ∀ y, y ∈ e2 ↔ y ∈ e1) := by
   rw [syncRules_eq] at hok; rw [fullSync_eq]
-  exact fullSync_idempotent k c ps node ⟨hps, hL, pr, compileSets_names_nodup c ps hps, hcons, hold, hlim⟩ hok
+  exact fullSync_idempotent k c ps node ⟨hps, hL, pr, compileSets_names_nodup c ps hps, hcons, hold, overLimit_false ps⟩ hok
 
 /-- "no batch of rules is submitted that references a chain … which does not exist at that point", for the batch of
     SyncPodChains: from ANY table with distinct chain names in which the chains of the current policies exist (what a
